@@ -45,6 +45,11 @@ FLOAT_DECIMALS: List[float] = [float("-inf"), -3.0e38, -0.5, 0.0, 1e-45, 0.1, 16
 FLOAT_TYPES = ("double", "float")
 ALL_TYPES = list(TYPE_VALUES)
 
+# pseudo-types: further concretisations of a schema type (not part of ALL_TYPES; users opt in)
+_P16 = "s3://bucket/ev/p"          # 16 characters shared by all values: the order is decided beyond any 16-character prefix
+SCHEMA_TYPE = {"longstring": "string"}
+TYPE_VALUES["longstring"] = [_P16, _P16 + " ", _P16 + "10", _P16 + "9", _P16 + "A", _P16 + "a", _P16 + "\u00e9", _P16 + "\u4e2d", _P16 + "\U0001F600"]
+
 
 def conc(t: str, a: int) -> Any:
     """Concrete value of abstract value `a` for column type `t` (None for NULL)."""
